@@ -336,6 +336,10 @@ func cmdRun(args []string) int {
 		}
 		if *budget > 0 {
 			cfg.Deadline = time.Now().Add(*budget)
+		} else if *tier == "quick" {
+			cfg.Deadline = time.Now().Add(15 * time.Minute)
+		} else {
+			cfg.Deadline = time.Now().Add(3 * time.Hour)
 		}
 		th := time.Now()
 		ex := interp.NewExplorer(ld.prog, fn, ld.sizes, cfg, *tier)
